@@ -37,6 +37,8 @@ def payload_cell(P, A):
         stories = [B.story(s, slug='ss', timing=B.timing_block(dur='10'), body=[T('p', 'x'), B.item('I')])
                    for s in ids]
         ro = B.running_order(stories, lead=2, gap=P.get('gap'), trail=P.get('trail', 0))
+        if P.get('prehist'):
+            B.prehist_replace(ro)
         cont = B.rc_of(ro)
         carried = [rich_story(n, c0, c1) for n in new_ids]
         addr = None
@@ -46,7 +48,9 @@ def payload_cell(P, A):
                      body=[B.item(i, slug='old') for i in ids] + [T('p', 'tail')])
         other = B.story(A['p1'], slug='so', timing=B.timing_block(dur='10'), body=[B.item(i) for i in ids])
         ro = B.running_order([st, other], lead=2)
-        cont = [s for s in B.rc_of(ro).findall('story') if s.find('storyID').text is addr][0]
+        if P.get('prehist'):
+            B.prehist_replace(ro)
+        cont = [s for s in B.rc_of(ro).findall('story') if B.same_obj(s.find('storyID').text, addr)][0]
         carried = [rich_item(n, c0, c1) for n in new_ids]
     tk = P.get('tk', 'existing')
     t = A.get('t') if has_t and tk == 'existing' else None
@@ -115,6 +119,8 @@ def send_cell(P, A):
     c0, c1 = A['c0'], A['c1']
     stories = [B.story(s, slug='ss', timing=B.timing_block(dur='10'), body=[T('p', 'x'), B.item('I')]) for s in ids]
     ro = B.running_order(stories, lead=2, gap=P.get('gap'), trail=P.get('trail', 0))
+    if P.get('prehist'):
+        B.prehist_replace(ro)
     body, exp_body = [], []
     for j, ch in enumerate(P['body']):
         if ch == 'p':
@@ -176,7 +182,11 @@ def send_cell(P, A):
 def base_ro(P, A, ids):
     """Running order with two mosExternalMetadata blocks of schemas a and b and other metadata."""
     c0 = A.get('c0', 'c')
-    stories = [B.story(s, slug='ss', timing=B.timing_block(dur='10'), body=[T('p', c0), B.item('I', slug=c0)])
+    # P['story_schema']: the stories' own (nested) metadata blocks use the schema of carried block A / X
+    ss = {'A': A.get('ma', 'sch.a'), 'X': A.get('mx', 'sch.x'), None: 'sch.story'}[P.get('story_schema')]
+    stories = [B.story(s, slug='ss', timing=B.timing_block(dur='10', schema=ss),
+                       body=[T('p', c0), B.item('I', slug=c0, extra=E('mosExternalMetadata', T('mosSchema', ss),
+                                                                  E('mosPayload', T('inItem', c0))))])
                for s in ids]
     root = B.ro_tree(stories, lead=3, gap=P.get('gap', 0), trail=P.get('trail', 1), edstart=None,
                      msg_id=A.get('mid', '1'))
